@@ -250,6 +250,39 @@ pub fn run(ctx: &Ctx) {
         },
         check_exp,
     );
+    {
+        // every decade from 1e-320 up to the tier's limit x 10 mantissas x both signs, written with a positive and
+        // (where the value is an integer) a negative scale: the series takes a different number of terms, and a
+        // different alignment of 1 + x + x^2/2, in every decade
+        let mants = ["1", "15", "17", "2", "25", "3", "3163", "5", "7", "99"];
+        let top = t.pick(2i64, 3);
+        let decades = (320 + top + 1) as u64;
+        ctx.enumerated(
+            "magnitude-sweep",
+            "exp",
+            decades * mants.len() as u64 * 2,
+            true,
+            &format!("EXHAUSTIVE: m * 10^e for every e in -320..={} x m in {{1, 1.5, 1.7, 2, 2.5, 3, 3.163, 5, 7, 9.9}} x both signs (|x| capped at the tier's limit)", top),
+            move |i| {
+                let mut j = i;
+                let neg = j % 2 == 1;
+                j /= 2;
+                let m = mants[(j % mants.len() as u64) as usize];
+                let e = (j / mants.len() as u64) as i64 - 320; // exponent of the leading digit
+                // value = 0.m * 10^(e+1): digits m, scale = len(m) - 1 - e
+                let scale = m.len() as i64 - 1 - e;
+                let d = D::new(if neg { format!("-{}", m) } else { m.to_string() }, scale);
+                // respect the tier's domain |x| <= 120 / 1000
+                let lim = if top == 2 { 120.0 } else { 1000.0 };
+                let approx: f64 = format!("{}e{}", m, -scale).parse().unwrap_or(f64::INFINITY);
+                if approx > lim {
+                    return None;
+                }
+                Some(ExpArg { d })
+            },
+            check_exp,
+        );
+    }
     let max_abs = t.pick(120u32, 1000);
     let budget = t.pick(4_000u64, 40_000);
     ctx.generated("random-arguments", "exp", t.pick(20_000, 100_000), "1..40-digit arguments with magnitudes 1e-130..max (40% in 0.1..max), both signs, zeros with a scale; digits*|x| bounded", move || arg_strategy(max_abs, budget), check_exp);
